@@ -4,15 +4,31 @@
 
 package types
 
-// generated size functions: only non-negativity is used by callers so far
-//@ func Packet.SizeVT
-//@   property C06 C07 C19 C20
-//@   note the nested stat's size has no upper bound in the model (map-range sum), so overflow is not checked here
-//@   ensures nonneg: n >= 0
+// ---------------------------------------------------------------------------
+// encoder side (C20, C19): sizes as specification functions; the generated size functions
+// compute them and the generated marshal functions need, fill and report exactly that many
+// bytes (so no index or slice is out of range when the buffer has the computed size).
+// sov = protohelpers.SizeOfVarint (uninterpreted, 1..10). Sums over the xattrs map are ghost
+// sums over the map range (mapsum / maptotal).
+// ---------------------------------------------------------------------------
+
+//@ pred specVarintField(x uint64) int = ite(x != 0, 1 + protohelpers.SizeOfVarint(x), 0)
+//@ pred specBytesField(l int) int = ite(l > 0, 1 + l + protohelpers.SizeOfVarint(uint64(l)), 0)
+//@ pred specXattrInner(k string, v []byte) int = 1 + len(k) + protohelpers.SizeOfVarint(uint64(len(k))) + 1 + len(v) + protohelpers.SizeOfVarint(uint64(len(v)))
+//@ pred specXattrEntry(k string, v []byte) int = specXattrInner(k, v) + 1 + protohelpers.SizeOfVarint(uint64(specXattrInner(k, v)))
+//@ pred specStatFixed(m *Stat) int = specBytesField(len(m.Path)) + specVarintField(uint64(m.Mode)) + specVarintField(uint64(m.Uid)) + specVarintField(uint64(m.Gid)) + specVarintField(uint64(m.Size)) + specVarintField(uint64(m.ModTime)) + specBytesField(len(m.Linkname)) + specVarintField(uint64(m.Devmajor)) + specVarintField(uint64(m.Devminor))
+//@ pred specStatSize(m *Stat) int = ite(m == nil, 0, specStatFixed(m) + ite(len(m.Xattrs) > 0, maptotal(m.Xattrs, specXattrEntry), 0) + len(m.unknownFields))
+//@ pred specPacketSize(m *Packet) int = ite(m == nil, 0, specVarintField(uint64(m.Type)) + ite(m.Stat != nil, 1 + specStatSize(m.Stat) + protohelpers.SizeOfVarint(uint64(specStatSize(m.Stat))), 0) + specVarintField(uint64(m.ID)) + specBytesField(len(m.Data)) + len(m.unknownFields))
+
 //@ func Stat.SizeVT
 //@   property C19 C20
-//@   note the map-range loop has no visited-set model, so the sum is unbounded in the model: overflow is not checked here
-//@   loop 0 invariant nonneg: n >= 0
+//@   loop 0 invariant partial: n == specStatFixed(m) + mapsum(m.Xattrs, 0, specXattrEntry)
+//@   ensures size: n == specStatSize(m)
+//@   ensures nonneg: n >= 0
+
+//@ func Packet.SizeVT
+//@   property C06 C07 C19 C20
+//@   ensures size: n == specPacketSize(m)
 //@   ensures nonneg: n >= 0
 
 //@ func Packet.Reset
@@ -26,10 +42,37 @@ package types
 //@   property C07 C20
 //@   modifies *m
 //@   ensures reset: m != nil ==> m.Type == 0 && m.Stat == nil && m.ID == 0 && len(m.Data) == 0 && ref(m.Data) == old(ref(m.Data))
+// the encoder fills the buffer from the end: given room for the computed size nothing is
+// indexed or sliced out of range, only the buffer is written, and exactly specStatSize(m) bytes
+// are reported as used
 //@ func Stat.MarshalToSizedBufferVT
 //@   property C19 C20
-//@   trusted generated code
+//@   requires room: len(dAtA) >= specStatSize(m)
 //@   modifies dAtA[*]
+//@   loop 0 invariant used: i == len(dAtA) - len(m.unknownFields) - mapsum(m.Xattrs, 0, specXattrEntry)
+//@   ensures used: result1 == nil && result0 == specStatSize(m)
+
+//@ func Packet.MarshalToSizedBufferVT
+//@   property C20 C06 C07
+//@   requires room: len(dAtA) >= specPacketSize(m)
+//@   modifies dAtA[*]
+//@   ensures used: result1 == nil && result0 == specPacketSize(m)
+
+// MarshalToVT (the entry point the framing layer uses through MarshalTo) hands the encoder a
+// buffer of exactly the computed size
+//@ func Packet.MarshalToVT
+//@   property C20
+//@   requires room: len(dAtA) >= specPacketSize(m)
+//@   modifies dAtA[*]
+//@   ensures used: result1 == nil && result0 == specPacketSize(m)
+//@ func Packet.MarshalTo
+//@   property C20
+//@   requires room: len(dAtA) >= specPacketSize(p)
+//@   modifies dAtA[*]
+//@   ensures used: result1 == nil && result0 == specPacketSize(p)
+//@ func Packet.Size
+//@   property C20
+//@   ensures size: result == specPacketSize(p)
 
 // Clone returns a fresh deep copy (generated CloneVT; maps and slices are copied)
 //@ func Stat.CloneVT
